@@ -62,7 +62,7 @@ func genBlock(t *rapid.T, prof *ConcProfile, sc *engine.Scenario, n int, canTick
 			}
 			blk = append(blk, st)
 		case 5:
-			blk = append(blk, engine.Step{Op: "setcur", Bar: bar, N: rapid.Int64Range(-1, 30).Draw(t, "cur")})
+			blk = append(blk, engine.Step{Op: "setcur", Bar: bar, N: rapid.Int64Range(-1, 30).Draw(t, "cur"), Text: rapid.SampledFrom([]string{"", "", "ewma"}).Draw(t, "setvariant")})
 		case 6:
 			blk = append(blk, engine.Step{Op: "settotal", Bar: bar, N: rapid.Int64Range(-2, 30).Draw(t, "tot"), Flag: rapid.IntRange(0, 3).Draw(t, "complete") == 0})
 		case 7:
